@@ -135,6 +135,40 @@ def system_of_design(d, rename=lambda x: x):
     return S
 
 
+def read_des(text):
+    """NUPACK-style .des text -> ordered list of lines (kind, name, payload):
+    ("structure", n, dotparen) / ("sequence", n, template) / ("assign", n, [items]) / ("bound", n, decimal text)"""
+    out = []
+    for raw in text.split("\n"):
+        line = re.sub(r"#.*", "", raw).strip()
+        if not line:
+            continue
+        m = re.match(r"structure\s+(\S+)\s*=\s*(\S+)\Z", line)
+        if m:
+            out.append(("structure", m.group(1), m.group(2))); continue
+        m = re.match(r"sequence\s+(\S+)\s*=\s*(\S+)\Z", line)
+        if m:
+            out.append(("sequence", m.group(1), m.group(2))); continue
+        m = re.match(r"(\S+)\s*:\s*(.*)\Z", line)
+        if m:
+            out.append(("assign", m.group(1), m.group(2).split())); continue
+        m = re.match(r"(\S+)\s*<\s*(\S+)\Z", line)
+        if m:
+            out.append(("bound", m.group(1), m.group(2))); continue
+        raise ValueError("unreadable .des line: %r" % raw)
+    return out
+
+
+def des_doc(text):
+    """the document in the shape of the model's `des-doc` answer"""
+    lines = read_des(text)
+    return {"structures": [[n, x] for k, n, x in lines if k == "structure"],
+            "sequences": [[n, x] for k, n, x in lines if k == "sequence"],
+            "assign": [[n, x] for k, n, x in lines if k == "assign"],
+            "bounds": [[n, x] for k, n, x in lines if k == "bound"],
+            "kinds": [k for k, n, x in lines]}
+
+
 def system_of_des(text):
     """NUPACK-style .des as the compiler emits it -> (System, objective bounds)"""
     S = System()
@@ -142,26 +176,17 @@ def system_of_des(text):
     structs = {}
     bounds = {}
     assigns = {}
-    for raw in text.split("\n"):
-        line = re.sub(r"#.*", "", raw).strip()
-        if not line:
-            continue
-        m = re.match(r"structure\s+(\S+)\s*=\s*(\S+)\Z", line)
-        if m:
-            structs[m.group(1)] = m.group(2); continue
-        m = re.match(r"sequence\s+(\S+)\s*=\s*(\S+)\Z", line)
-        if m:
-            seqs[m.group(1)] = m.group(2)
-            for i, c in enumerate(m.group(2)):
-                S.var((m.group(1), i), GROUP[c])
-            continue
-        m = re.match(r"(\S+)\s*:\s*(.*)\Z", line)
-        if m:
-            assigns.setdefault(m.group(1), []).append(m.group(2).split()); continue
-        m = re.match(r"(\S+)\s*<\s*(\S+)\Z", line)
-        if m:
-            bounds[m.group(1)] = m.group(2); continue
-        raise ValueError("unreadable .des line: %r" % raw)
+    for kind, name, x in read_des(text):
+        if kind == "structure":
+            structs[name] = x
+        elif kind == "sequence":
+            seqs[name] = x
+            for i, c in enumerate(x):
+                S.var((name, i), GROUP[c])
+        elif kind == "assign":
+            assigns.setdefault(name, []).append(x)
+        else:
+            bounds[name] = x
     for sname, items_list in assigns.items():
         if sname not in structs or len(items_list) != 1:
             raise ValueError("structure %s assigned %d times / undefined" % (sname, len(items_list)))
